@@ -116,7 +116,13 @@ impl TxtppPath for PathBuf {
                 Report::new(PathError::from(self))
                     .attach_printable(format!("path does not have {TXTPP_EXT} extension"))
             })?;
-            p.set_extension(self_ext);
+            // append it: `set_extension` would replace an extension of the stem (`foo.bar.txtpp.ext` -> `foo.ext`)
+            if let (false, Some(name)) = (self_ext.is_empty(), p.file_name()) {
+                let mut name = name.to_os_string();
+                name.push(".");
+                name.push(self_ext);
+                p.set_file_name(name);
+            }
         }
 
         Ok(p)
